@@ -110,24 +110,24 @@ CHECKS = {
 
 # argument-form axes added after the wave-d seeds (appended to the level text of each check)
 ADDENDA = {
- "C17": " Look-alike non-elements are probed before and after every valid lookup (acceptance must not depend on history). Every Element handed out is scribbled on before the next lookup. Elements after copy / deepcopy / pickle. chemical_formula over tuples, object arrays, generators, iterators, maps. Formula counts of 255-70000 atoms of one element. A refused lookup between every two valid lookups of the route sweep. Vectorised helpers on arrays of one, none and two atoms.",
- "C12": " Near-duplicate pairs of cells (angles within 5e-3 degrees, lengths within 1e-6) built in one process, both orders. Unit strings created at run time. Unit passed positionally / defaulted; cells after pickle / copy. Whole-number lattices (orthogonal and oblique) in 8 array forms through the constructor and set_vectors. Refused re-specifications (five kinds, on the object or a bystander) before every letter of the history alphabet. One position as a (3,) vector / (1,3) array / list in every cell.",
- "C08": " The count/order sweep over L = 0..26 is run upwards and then downwards in one process. Band-limit continuity oracle: functions stored above their band limit (top degrees exactly zero). kinds in every letter order. Homogeneity oracle (one degree scaled by 1e-13). Rotation invariance is checked at every L = 1..26 (dense, wide-range and decaying vectors). Dense and flat vectors at overall magnitudes 1e-13 .. 1e8. (valid, refused, retry, valid) histories over seven kinds of refused input. Band limit 0 with explicit shape checks.",
+ "C17": " Look-alike non-elements are probed before and after every valid lookup (acceptance must not depend on history). Every Element handed out is scribbled on before the next lookup. Elements after copy / deepcopy / pickle. chemical_formula over tuples, object arrays, generators, iterators, maps. Formula counts of 255-70000 atoms of one element. A refused lookup between every two valid lookups of the route sweep. Vectorised helpers on arrays of one, none and two atoms. Labels with trailing line-end white space.",
+ "C12": " Near-duplicate pairs of cells (angles within 5e-3 degrees, lengths within 1e-6) built in one process, both orders. Unit strings created at run time. Unit passed positionally / defaulted; cells after pickle / copy. Whole-number lattices (orthogonal and oblique) in 8 array forms through the constructor and set_vectors. Refused re-specifications (five kinds, on the object or a bystander) before every letter of the history alphabet. One position as a (3,) vector / (1,3) array / list in every cell. Copies (copy / deepcopy / pickle) re-specified with every letter.",
+ "C08": " The count/order sweep over L = 0..26 is run upwards and then downwards in one process. Band-limit continuity oracle: functions stored above their band limit (top degrees exactly zero). kinds in every letter order. Homogeneity oracle (one degree scaled by 1e-13). Rotation invariance is checked at every L = 1..26 (dense, wide-range and decaying vectors). Dense and flat vectors at overall magnitudes 1e-13 .. 1e8. (valid, refused, retry, valid) histories over seven kinds of refused input. Band limit 0 with explicit shape checks. kinds='N' for every accepted array form.",
  "C07": " Constructor histories: ordered pairs of objects with the same L and different (ntheta, nphi), each exact on its own grid. Magnitude axis: amplitudes 1e-10 and 1e7, and a 1e-9 imaginary part on a unit real function. Long sweeps: thousands of distinct points evaluated twice on one object. Poles evaluated at every L; all threshold tests NaN-proof. Cartesian form of the grid at every L. The arrays returned by grid / grid_cartesian are edited by the caller and the grid is read again. Power spectra of shape-like decaying spectra, degree by degree to relative accuracy. Object histories include six refused calls, first and in between. Whole-number angles in integer types.",
- "C01": " Positions are also handed over as an int64 array (atoms on whole-number coordinates), as a nested list and shifted by lattice vectors. An after-exports variant (three file exports between two queries) in every setting. Cells given by lattice vectors in rotated / permuted / mirrored Cartesian frames; a deterministic cross-setting pass per crystal class. Occupancy 0 is in the occupancy alphabet. Every setting is also expanded in a pseudo-special cell (free parameters a hair off whole numbers / 90 / 120 / 60 degrees). A variant in which the crystal's first requests are ones the API refuses. One-cell and one-cell-thick slabs.",
+ "C01": " Positions are also handed over as an int64 array (atoms on whole-number coordinates), as a nested list and shifted by lattice vectors. An after-exports variant (three file exports between two queries) in every setting. Cells given by lattice vectors in rotated / permuted / mirrored Cartesian frames; a deterministic cross-setting pass per crystal class. Occupancy 0 is in the occupancy alphabet. Every setting is also expanded in a pseudo-special cell (free parameters a hair off whole numbers / 90 / 120 / 60 degrees). A variant in which the crystal's first requests are ones the API refuses. One-cell and one-cell-thick slabs. Special-position sites in crystals built without occupancies.",
  "C02": " Lookup is also driven from SHELX descriptions generated by the reference (true LATT number incl. 6, reference coset reduction, two orders). After a caller edits the operation list of one SpaceGroup object the setting is constructed and looked up again (instance independence). Reduced descriptions are also given reversed and with the identity last / in the middle. Settings after pickle / deepcopy / copy. Products g.h.g / g.g.g formed with floating-point matrices pack to the code of the exact product. One list object of reduced operations handed over repeatedly (lookup / expansion histories). Every setting is looked up from its operations shifted by far lattice vectors (up to 1.5e5 cells). The whole sweep is repeated in the hostile / after-an-error environment.",
- "C03": " molecule_environment is also called with a non-default threshold and a centre molecule 0.02 A off the sites. Exact-shell family: lattice-aligned atoms, radii equal to lattice distances; the shell at the radius is reported all-or-none. Centre molecules that are caller-made symmetry images (Molecule.transformed) or rebuilt from arrays. Integer-typed query origins. Slabs beyond 2^16 and 2^18 rows: a 1728-atom cell at 12-30 A, a small rhombohedral cell at 35 A. Crystals whose molecules are single atoms (fcc argon, a one-atom P1 cell).",
- "C04": " The documented covalent_radii= override (all 8 histories of length 3) and bond_tolerance= (0.7 / default / -0.2 on stretched and ordinary water) are exercised through both entry points. Polyyne rods spanning 1.6-4.3 cells along a short axis, listed from either end. Chains are also listed in scrambled orders (inner atoms before the neighbour they are reached from). A bond-making covalent_radii override on bonds crossing every cell face. Dihydrogen (an H-H bond) among the molecules. Z' = 2 asymmetric units are also listed interleaved / heavy atoms first / reversed. Water grids of 648-3072 atoms per cell in P1 / P-1 with molecules straddling every face. Z' kinds with a one-atom molecule (Ar+H2O, H2O+Ar, Ar alone).",
- "C05": " Batch-size independence of rho / weights over 1..131073 points per call (sizes straddling 2^8, 2^12, 2^16, 2^17). Extended clusters with exterior atoms 3-30 A from the interior (beyond the 10.58 A table extent). Coincident and nearly coincident atoms (mixed sites) are part of the configurations. Lattice clusters of up to 8193 (thorough 65537) atoms. Empty exterior sets with backgrounds. Argument histories: the same array object after in-place updates. All 103 x 103 ordered element pairs and a molecule of all 103 elements. The arrays the object was built from are edited afterwards: the answer must not depend on whether the object had been evaluated before the edit. A molecule displaced 3e2-2e4 A from the coordinate origin.",
+ "C03": " molecule_environment is also called with a non-default threshold and a centre molecule 0.02 A off the sites. Exact-shell family: lattice-aligned atoms, radii equal to lattice distances; the shell at the radius is reported all-or-none. Centre molecules that are caller-made symmetry images (Molecule.transformed) or rebuilt from arrays. Integer-typed query origins. Slabs beyond 2^16 and 2^18 rows: a 1728-atom cell at 12-30 A, a small rhombohedral cell at 35 A. Crystals whose molecules are single atoms (fcc argon, a one-atom P1 cell). Triclinic cells with accidentally equal parameters.",
+ "C04": " The documented covalent_radii= override (all 8 histories of length 3) and bond_tolerance= (0.7 / default / -0.2 on stretched and ordinary water) are exercised through both entry points. Polyyne rods spanning 1.6-4.3 cells along a short axis, listed from either end. Chains are also listed in scrambled orders (inner atoms before the neighbour they are reached from). A bond-making covalent_radii override on bonds crossing every cell face. Dihydrogen (an H-H bond) among the molecules. Z' = 2 asymmetric units are also listed interleaved / heavy atoms first / reversed. Water grids of 648-3072 atoms per cell in P1 / P-1 with molecules straddling every face. Z' kinds with a one-atom molecule (Ar+H2O, H2O+Ar, Ar alone). Big cells with a bond-breaking radius override.",
+ "C05": " Batch-size independence of rho / weights over 1..131073 points per call (sizes straddling 2^8, 2^12, 2^16, 2^17). Extended clusters with exterior atoms 3-30 A from the interior (beyond the 10.58 A table extent). Coincident and nearly coincident atoms (mixed sites) are part of the configurations. Lattice clusters of up to 8193 (thorough 65537) atoms. Empty exterior sets with backgrounds. Argument histories: the same array object after in-place updates. All 103 x 103 ordered element pairs and a molecule of all 103 elements. The arrays the object was built from are edited afterwards: the answer must not depend on whether the object had been evaluated before the edit. A molecule displaced 3e2-2e4 A from the coordinate origin. The batch-size sweep also with non-zero backgrounds.",
  "C06": " The same samples as Fortran-ordered, float64, strided and transposed-view arrays must give the same oriented triangles. Hirshfeld wrapper surfaces are judged against neighbours found by brute force from the unit-cell atoms. Surfaces whose isovalue is the density at a grid node. A two-sheet surface (C60 cage). Every documented vertex colouring must leave the vertices where they are. 57..305-atom clusters (sampling grids up to 1.6M points, 2.4M thorough) through the default smoothed routes with the density checked at every vertex. Every smooth field also in other units (samples and level times 2^-17 .. 2^20). Every density object is first asked for a surface the API refuses.",
  "C09": " kinds='N' is swept with its own calibrated bounds (the P block alone is not: no calibrated bound applies). A rod molecule (triacetylene) laid along axes, face and body diagonals with default search bounds. Whole-crystal translations of P1 descriptions (complete grid of origin shifts in a small oblique cell). An explicit origin of exactly (0,0,0). Refusal cases on the per-atom route. One long-lived SHT object through all (descriptor, method in between, descriptor) histories against fresh-object answers. Translations of 1e3 and 3e3 A with calibrated bounds. Crystals are first asked for descriptors the API refuses. Lone-atom molecules in the refusal clause and as spheres.",
- "C10": " Provenance includes crystals read from a refinement-style CIF with extra same-prefix loops of other lengths. Structures with a partially occupied site inside the merge distance of its images: POSCAR written first / after queries. Columns in which every coordinate is a whole number. Unusual but valid file names (POSCAR.cif, CONTCAR.res, upper-case extensions) and pathlib paths. Sites many cells away from the origin. Files not written by the library: standard SHELX cards (upper-case operations, true LATT), POSCAR with scale factors; labels that spell other elements; all 103 elements. Occupancies 1, 0, 1/4, 3/4, 1/3 through the CIF route. The pseudo-special cell as a cell variant in all 530 settings. A one-atom asymmetric unit in every setting.",
- "C11": " Operations are also built from int64 rotation matrices (code, string, (N,3)/(N,4) application, Seitz matrix). Operator and augmented-assignment arithmetic on every operation class. Homogeneous points with weights other than one; operations after pickle / copy. Five far lattice vectors (1e3-1.5e5 cells) added to every tabulated operation; Cartesian forms in cells 1e-4 degrees off orthogonal. Every second spelling is preceded by a string the reader refuses. Degenerate point sets (the origin alone) under every operation.",
- "C13": " Partially occupied molecules (0.5 / 0.25) are included in the P1 / supercell density comparison. Hexagonal c/a ratios at which the rhombohedral cell is metrically special (alpha 90, 60, 109.47). Sequences with a coordinate edit between two trigonal switches. User labels that spell another element. Crystals read from a CIF with deposited metadata. The crystal as read from a CIF is expanded, and the export of the expansion is read again. Ar+H2O and Ar-alone crystals in all 230 settings.",
+ "C10": " Provenance includes crystals read from a refinement-style CIF with extra same-prefix loops of other lengths. Structures with a partially occupied site inside the merge distance of its images: POSCAR written first / after queries. Columns in which every coordinate is a whole number. Unusual but valid file names (POSCAR.cif, CONTCAR.res, upper-case extensions) and pathlib paths. Sites many cells away from the origin. Files not written by the library: standard SHELX cards (upper-case operations, true LATT), POSCAR with scale factors; labels that spell other elements; all 103 elements. Occupancies 1, 0, 1/4, 3/4, 1/3 through the CIF route. The pseudo-special cell as a cell variant in all 530 settings. A one-atom asymmetric unit in every setting. A long-and-obtuse cell variant; three two-deviation variants per setting in rotation (pairwise covering) in the quick tier, all pairs in the thorough tier.",
+ "C11": " Operations are also built from int64 rotation matrices (code, string, (N,3)/(N,4) application, Seitz matrix). Operator and augmented-assignment arithmetic on every operation class. Homogeneous points with weights other than one; operations after pickle / copy. Five far lattice vectors (1e3-1.5e5 cells) added to every tabulated operation; Cartesian forms in cells 1e-4 degrees off orthogonal. Every second spelling is preceded by a string the reader refuses. Degenerate point sets (the origin alone) under every operation. Every operation from Fortran-ordered / strided rotation arrays; integer points under integer rotations.",
+ "C13": " Partially occupied molecules (0.5 / 0.25) are included in the P1 / supercell density comparison. Hexagonal c/a ratios at which the rhombohedral cell is metrically special (alpha 90, 60, 109.47). Sequences with a coordinate edit between two trigonal switches. User labels that spell another element. Crystals read from a CIF with deposited metadata. The crystal as read from a CIF is expanded, and the export of the expansion is read again. Ar+H2O and Ar-alone crystals in all 230 settings. Partially occupied atoms exactly on special positions.",
  "C14": " A seventh structure (P1, Cu 0.6 / Au 0.4 on one position, ndarray occupancies) is explored over the alphabet without the trigonal switches; a sixth has a 1/3-occupancy site 0.04 A off a three-fold axis. Every answer is also compared with the answer of a pristine interpreter for the same public state; every state has a transition through the same queries on a sibling crystal; a refused request is part of the alphabet. Exports are byte-identical in two time zones 26 h apart. Public state compared bit for bit around every query; 18 queries. Short aliases uc / sg / asym are part of the observed answers. Two structures list part of their asymmetric unit several cells away from the origin. Six refused requests (setting name, tolerance, shell method, descriptor property, radius, supercell size) are letters of the alphabet. A one-cell slab query letter.",
- "C15": " The name alphabet holds same-prefix pairs with equal-length and with different-length names. Floats within 1e-11 of an integer are in the value alphabet. Big shapes: up to 300 columns, 5000 rows, 5000-character strings. In-place edit histories on parsed and constructed Cif objects. File-based twins (to_file / from_file); strings with '#'. Site-symmetry code strings. Block and item names that contain the format's own keywords (data_, loop_, save_, global_, stop_). Fourteen scalars from 1e-300 to 1e25 and with 16 digits must come back exactly.",
- "C16": " XYZ comment lines: empty, blank, tab, number-like, atom-like, hand-written and library-written, for all 103 elements. Coordinates just above the last written decimal (6e-5..9.9e-4). 130 kB multi-record SDF files with terminators on every power-of-two block boundary. CRLF line endings. File stems that are other formats' file names. Unit words in XYZ titles; long molecule names. After every write the molecule is bit for bit unchanged and the other format written next equals that of a never-written molecule. Coordinates with five integer digits (the ten-column SDF field completely filled).",
- "C18": " Relating rotations down to 2e-6 rad and noise down to 1e-7 are included; the Horn reference evaluates its RMSD directly (achievable value). Dimers produced by symmetry_unique_dimers of several crystals analysed in one process, Horn optimum as oracle. Point sets given as views into one buffer. Crystals whose asymmetric unit is not one connected molecule. Integer-typed molecules through Dimer. Both molecules of a pair live through all histories of length <= 2 of centroid / centre-of-mass reads and in-place motions before the pair is formed. Thin rods (thickness/length to 1e-6) and small sets up to 1e5 from the origin. P1 / P-1 crystals with two independent molecules in the crystal-dimer sequences.",
+ "C15": " The name alphabet holds same-prefix pairs with equal-length and with different-length names. Floats within 1e-11 of an integer are in the value alphabet. Big shapes: up to 300 columns, 5000 rows, 5000-character strings. In-place edit histories on parsed and constructed Cif objects. File-based twins (to_file / from_file); strings with '#'. Site-symmetry code strings. Block and item names that contain the format's own keywords (data_, loop_, save_, global_, stop_). Fourteen scalars from 1e-300 to 1e25 and with 16 digits must come back exactly. Long strings carrying semicolons and keywords.",
+ "C16": " XYZ comment lines: empty, blank, tab, number-like, atom-like, hand-written and library-written, for all 103 elements. Coordinates just above the last written decimal (6e-5..9.9e-4). 130 kB multi-record SDF files with terminators on every power-of-two block boundary. CRLF line endings. File stems that are other formats' file names. Unit words in XYZ titles; long molecule names. After every write the molecule is bit for bit unchanged and the other format written next equals that of a never-written molecule. Coordinates with five integer digits (the ten-column SDF field completely filled). Explicit fmt= under six kinds of file name.",
+ "C18": " Relating rotations down to 2e-6 rad and noise down to 1e-7 are included; the Horn reference evaluates its RMSD directly (achievable value). Dimers produced by symmetry_unique_dimers of several crystals analysed in one process, Horn optimum as oracle. Point sets given as views into one buffer. Crystals whose asymmetric unit is not one connected molecule. Integer-typed molecules through Dimer. Both molecules of a pair live through all histories of length <= 2 of centroid / centre-of-mass reads and in-place motions before the pair is formed. Thin rods (thickness/length to 1e-6) and small sets up to 1e5 from the origin. P1 / P-1 crystals with two independent molecules in the crystal-dimer sequences. float32 and mixed-precision input for every relation.",
  "C19": " Integer-valued normals are also given as an int64 array and as nested tuples with list energies. The scaling law is exercised with factors 0.5, 3, 1e3 and 1e-3. The caller edits the returned mesh and asks again. Corners where four facets meet; every facet names each corner once. Vicinal facets 0.01..2 degrees from a facet of a cube, a cuboctahedron and a generic body. A small-facet family (relative edge 1e-3 .. 1e-8 on crystals of size 1, 1e3, 2.5e4) compared at a resolution of 1e-9. Minimal shapes: tetrahedra, triangular prism, square pyramid.",
  "C20": " Korobov seed 0 (the smallest valid seed) is covered for batch, single point and front end. Keyword calls in every argument order. A front-end probe under eight interpreter hash seeds. The Korobov domain is swept completely (every seed 0..1000256 x every dimension 1..64): front end = batch bit for bit, range, definition. Refused front-end requests are letters of the call histories. Counts, dimensions and seeds as numpy integers at degenerate sizes.",
 }
